@@ -23,7 +23,7 @@ import (
 func (e *Engine) modelOps(s *State, fr *Frame, dst *ssa.Call, key string, f *ssa.Function, args []Value, site ssa.Instruction) (Value, bool) {
 	// opt-in per root ("exact_strings" in the root function's contract): the checks written before these models
 	// existed keep the coarser treatment (arbitrary Sprintf result, opaque Builder) they were validated with
-	if e.rootContract == nil || e.rootContract.Flags["exact_strings"] == "" {
+	if e.rootContract == nil || e.rootContract.Flags["exact_strings"] != "ops" {
 		return nil, false
 	}
 	switch key {
